@@ -293,7 +293,10 @@ func (g *Global) contractFor(fn *ssa.Function) *FuncContract {
 	}
 	// generic instantiation or wrapper: try origin
 	if o := fn.Origin(); o != nil && o != fn {
-		return g.contractFor(o)
+		if c := g.contractFor(o); c != nil {
+			return c
+		}
+		return g.cs.Funcs[funcKeyOf(o)]
 	}
 	return nil
 }
